@@ -68,9 +68,33 @@ def extra(report, env):
     for l in loops:
         res.append(('termination.' + l, l in TERMINATION, 'a while-loop without a termination argument (variant in a sidecar contract): %s' % l))
     res.append(('termination.loops-enumerated', len(loops) >= 1, '%d while loops' % len(loops)))
+    # bounded time of the lexer: no token rule may nest unbounded repeats (exponential backtracking of `re`)
+    from pyvc import lexer_facts
+    try:
+        obs, _, _ = lexer_facts.obligations(env['repo'])
+        res.extend(o for o in obs if o[0].startswith('L0.'))
+    except Exception as ex:
+        res.append(('lexer.rules-readable', False, repr(ex)))
     table_obligations(report, 'C01', res)
     rng = random.Random(env['seed'])
     cases, fails = e2e.check_totality(rng, env['tier'])
+    # wall-clock bound for inputs that make a backtracking matcher work hard: unterminated literals with long tails, long operator runs
+    import time as _time
+    p2 = e2e.new_parser()
+    hard = ['SUM("abc' + 'x' * 40, "'" + 'y z' * 20, 'CONCATENATE("Total: ", 12, " units shipped to the warehouse in the last quarter)',
+            '"' + 'a b' * 30, '((((((((((((((((((((((1', '1' + '+1' * 300, 'A' * 200 + '(', '"' * 41, 'x' * 3000, '1.' * 200, '{' + '1,' * 400 + '1}']
+    for text in hard:
+        cases += 1
+        t0 = _time.time()
+        try:
+            r = e2e.run_with_deadline(lambda: p2.parse(text), 5.0)
+            bad = e2e.well_formed(r)
+        except e2e.Budget:
+            bad = 'did not return within 5 s'
+        except BaseException as ex:
+            bad = 'parse raised %s' % type(ex).__name__
+        if bad and len(fails) < 5:
+            fails.append({'formula': text, 'detail': bad})
     bounded(report, 'C01.totality', 'every registered name x arity 0..%d x 15-value typed pool (arity 3 sampled), seeded token soups, '
             'callbacks returning each pool value / raising 5 exception kinds, line budget 400000' % (3 if env['tier'] == 'thorough' else 2),
             cases, fails)
